@@ -2406,6 +2406,206 @@ Proof.
   apply (m1_store_crash_safe m1_ex_st m_ex_tiles st' b slot); auto.
 Qed.
 
+(* ==== PART 6b: CompactCacheBase.store_tiles = routing decision + one of the two paths ==== *)
+
+Lemma filter_all_true : forall (A : Type) (f : A -> bool) l, forallb f l = true -> filter f l = l.
+Proof.
+  intros A f l. induction l as [|a l IH]; intros H; [reflexivity|].
+  cbn [forallb] in H. apply andb_true_iff in H. destruct H as [Ha Hl].
+  cbn [filter]. rewrite Ha. rewrite (IH Hl). reflexivity.
+Qed.
+
+Lemma filter_all_false : forall (A : Type) (f g : A -> bool) l,
+  forallb g l = true -> (forall a, g a = true -> f a = false) -> filter f l = [].
+Proof.
+  intros A f g l. induction l as [|a l IH]; intros H Hfg; [reflexivity|].
+  cbn [forallb] in H. apply andb_true_iff in H. destruct H as [Ha Hl].
+  cbn [filter]. rewrite (Hfg a Ha). apply IH; assumption.
+Qed.
+
+(* the single-bundle route is taken only when every tile of the call lies in the bundle that receives the call:
+   the batch handed to that bundle (all tiles, coordinates reduced modulo 128) is the batch of that bundle ... *)
+Lemma c_single_batch_same : forall tiles,
+  c_single_bundle tiles = true -> c_all_slots tiles = m_batch_of (c_last_bundle tiles) tiles.
+Proof.
+  intros tiles E. unfold c_single_bundle in E. apply andb_true_iff in E. destruct E as [_ E].
+  unfold m_batch_of, c_all_slots.
+  rewrite (filter_all_true _ (fun t => fst (fst t) =? c_last_bundle tiles) tiles E). reflexivity.
+Qed.
+
+(* ... and no other bundle has a tile in the call *)
+Lemma c_single_batch_other : forall tiles b,
+  c_single_bundle tiles = true -> c_last_bundle tiles <> b -> m_batch_of b tiles = [].
+Proof.
+  intros tiles b E Hb. unfold c_single_bundle in E. apply andb_true_iff in E. destruct E as [_ E].
+  unfold m_batch_of.
+  rewrite (filter_all_false _ (fun t => fst (fst t) =? b) (fun t => c_bundle_of t =? c_last_bundle tiles) tiles E).
+  - reflexivity.
+  - intros a Ha. unfold c_bundle_of in Ha. apply Z.eqb_eq in Ha. apply Z.eqb_neq. congruence.
+Qed.
+
+(* the writes of CompactCacheBase.store_tiles (version 2) that go to bundle b are, on BOTH routes, exactly the writes of
+   Bundle.store_tiles on the tiles of b *)
+Lemma c_store_proj : forall tiles st b,
+  m_proj b (c_store_ops st tiles) = v2_store_ops (st b) (m_batch_of b tiles).
+Proof.
+  intros tiles st b. unfold c_store_ops.
+  destruct (c_single_bundle tiles) eqn:E; [|apply m_store_proj].
+  cbv zeta. destruct (Z.eq_dec (c_last_bundle tiles) b) as [Eb|Eb].
+  - rewrite Eb. rewrite m_proj_tag_same. rewrite <- Eb.
+    rewrite (c_single_batch_same tiles E). reflexivity.
+  - rewrite m_proj_tag_other by exact Eb.
+    rewrite (c_single_batch_other tiles b E Eb). reflexivity.
+Qed.
+
+Lemma c_store_ops_valid : forall st tiles,
+  (forall x, v2_wf (st x)) ->
+  (forall x, flen (st x) + total_len (m_batch_of x tiles) <= P40) ->
+  (forall bb s d, In (bb, s, d) tiles -> 0 <= s < SLOTS /\ d <> [] /\ zlen d < 16777216) ->
+  forall x, v2_raw_ok (m_batch_of x tiles) (flen (st x)) (st x) (m_proj x (c_store_ops st tiles)) = true.
+Proof.
+  intros st tiles Hwf Hg Hb x. rewrite c_store_proj. apply v2_store_ops_valid; auto.
+  intros s d H. apply (Hb x). apply m_batch_of_in. exact H.
+Qed.
+
+Theorem c_store_crash_safe : forall st tiles st' b slot,
+  (forall x, v2_wf (st x)) ->
+  (forall x, flen (st x) + total_len (m_batch_of x tiles) <= P40) ->
+  (forall bb s d, In (bb, s, d) tiles -> 0 <= s < SLOTS /\ d <> [] /\ zlen d < 16777216) ->
+  In st' (m_crash_states st (c_store_ops st tiles)) -> 0 <= slot < SLOTS ->
+  v2_read (st' b) slot = v2_read (st b) slot \/
+  exists dd, has_data (m_batch_of b tiles) slot dd = true /\ dd <> [] /\ v2_read (st' b) slot = RData dd.
+Proof.
+  intros st tiles st' b slot Hwf Hg Hb Hin Hs.
+  apply (m_crash_safe (fun x => m_batch_of x tiles) st (c_store_ops st tiles) st' b slot); auto.
+  - apply c_store_ops_valid; auto.
+  - apply m_batch_no_empty. exact Hb.
+Qed.
+
+Corollary c_store_others_unaffected : forall st tiles st' b slot,
+  (forall x, v2_wf (st x)) ->
+  (forall x, flen (st x) + total_len (m_batch_of x tiles) <= P40) ->
+  (forall bb s d, In (bb, s, d) tiles -> 0 <= s < SLOTS /\ d <> [] /\ zlen d < 16777216) ->
+  In st' (m_crash_states st (c_store_ops st tiles)) -> 0 <= slot < SLOTS ->
+  (forall d, ~ In (b, slot, d) tiles) ->
+  v2_read (st' b) slot = v2_read (st b) slot.
+Proof.
+  intros st tiles st' b slot Hwf Hg Hb Hin Hs Hno.
+  apply (m_others_unaffected (fun x => m_batch_of x tiles) st (c_store_ops st tiles) st' b slot); auto.
+  - apply c_store_ops_valid; auto.
+  - intros dd. cbv beta. destruct (has_data (m_batch_of b tiles) slot dd) eqn:E; [|reflexivity].
+    unfold has_data in E. apply existsb_exists in E. destruct E as [[s d] [Hi E]].
+    cbn [fst snd] in E. apply andb_true_iff in E. destruct E as [E _]. apply Z.eqb_eq in E. subst s.
+    exfalso. apply (Hno d). apply m_batch_of_in. exact Hi.
+Qed.
+
+Theorem c_store_wf : forall st tiles,
+  (forall x, v2_wf (st x)) ->
+  (forall x, flen (st x) + total_len (m_batch_of x tiles) <= P40) ->
+  (forall bb s d, In (bb, s, d) tiles -> 0 <= s < SLOTS /\ d <> [] /\ zlen d < 16777216) ->
+  forall x, v2_wf (m_apply_all st (c_store_ops st tiles) x).
+Proof.
+  intros st tiles Hwf Hg Hb.
+  apply (m_wf_preserved (fun x => m_batch_of x tiles)); auto.
+  apply c_store_ops_valid; auto.
+Qed.
+
+(* the writes of CompactCacheBase.store_tiles (version 1) that go to bundle b are, on BOTH routes, exactly the writes of
+   Bundle.store_tiles on the tiles of b *)
+Lemma c1_store_proj : forall tiles st b,
+  m1_proj b (c1_store_ops st tiles) = v1_store_ops (st b) (m_batch_of b tiles).
+Proof.
+  intros tiles st b. unfold c1_store_ops.
+  destruct (c_single_bundle tiles) eqn:E; [|apply m1_store_proj].
+  cbv zeta. destruct (Z.eq_dec (c_last_bundle tiles) b) as [Eb|Eb].
+  - rewrite Eb. rewrite m1_proj_tag_same. rewrite <- Eb.
+    rewrite (c_single_batch_same tiles E). reflexivity.
+  - rewrite m1_proj_tag_other by exact Eb.
+    rewrite (c_single_batch_other tiles b E Eb). reflexivity.
+Qed.
+
+Lemma c1_store_ops_valid : forall st tiles,
+  (forall x, v1_wf (st x)) ->
+  (forall x, flen (v1dat (st x)) + total_len (m_batch_of x tiles) <= 1099511627776) ->
+  (forall bb s d, In (bb, s, d) tiles -> 0 <= s < SLOTS /\ d <> [] /\ zlen d < 4294967296) ->
+  forall x, v1_raw_ok (m_batch_of x tiles) (flen (v1dat (st x))) (st x) (m1_proj x (c1_store_ops st tiles)) = true.
+Proof.
+  intros st tiles Hwf Hg Hb x. rewrite c1_store_proj. apply v1_store_ops_valid; auto.
+  intros s d H. apply (Hb x). apply m_batch_of_in. exact H.
+Qed.
+
+Theorem c1_store_crash_safe : forall st tiles st' b slot,
+  (forall x, v1_wf (st x)) ->
+  (forall x, flen (v1dat (st x)) + total_len (m_batch_of x tiles) <= 1099511627776) ->
+  (forall bb s d, In (bb, s, d) tiles -> 0 <= s < SLOTS /\ d <> [] /\ zlen d < 4294967296) ->
+  In st' (m1_crash_states st (c1_store_ops st tiles)) -> 0 <= slot < SLOTS ->
+  v1_read (st' b) slot = v1_read (st b) slot \/
+  exists dd, has_data (m_batch_of b tiles) slot dd = true /\ dd <> [] /\ v1_read (st' b) slot = RData dd.
+Proof.
+  intros st tiles st' b slot Hwf Hg Hb Hin Hs.
+  apply (m1_crash_safe (fun x => m_batch_of x tiles) st (c1_store_ops st tiles) st' b slot); auto.
+  - apply c1_store_ops_valid; auto.
+  - apply m1_batch_no_empty. exact Hb.
+Qed.
+
+Corollary c1_store_others_unaffected : forall st tiles st' b slot,
+  (forall x, v1_wf (st x)) ->
+  (forall x, flen (v1dat (st x)) + total_len (m_batch_of x tiles) <= 1099511627776) ->
+  (forall bb s d, In (bb, s, d) tiles -> 0 <= s < SLOTS /\ d <> [] /\ zlen d < 4294967296) ->
+  In st' (m1_crash_states st (c1_store_ops st tiles)) -> 0 <= slot < SLOTS ->
+  (forall d, ~ In (b, slot, d) tiles) ->
+  v1_read (st' b) slot = v1_read (st b) slot.
+Proof.
+  intros st tiles st' b slot Hwf Hg Hb Hin Hs Hno.
+  apply (m1_others_unaffected (fun x => m_batch_of x tiles) st (c1_store_ops st tiles) st' b slot); auto.
+  - apply c1_store_ops_valid; auto.
+  - intros dd. cbv beta. destruct (has_data (m_batch_of b tiles) slot dd) eqn:E; [|reflexivity].
+    unfold has_data in E. apply existsb_exists in E. destruct E as [[s d] [Hi E]].
+    cbn [fst snd] in E. apply andb_true_iff in E. destruct E as [E _]. apply Z.eqb_eq in E. subst s.
+    exfalso. apply (Hno d). apply m_batch_of_in. exact Hi.
+Qed.
+
+Theorem c1_store_wf : forall st tiles,
+  (forall x, v1_wf (st x)) ->
+  (forall x, flen (v1dat (st x)) + total_len (m_batch_of x tiles) <= 1099511627776) ->
+  (forall bb s d, In (bb, s, d) tiles -> 0 <= s < SLOTS /\ d <> [] /\ zlen d < 4294967296) ->
+  forall x, v1_wf (m1_apply_all st (c1_store_ops st tiles) x).
+Proof.
+  intros st tiles Hwf Hg Hb.
+  apply (m1_wf_preserved (fun x => m_batch_of x tiles)); auto.
+  apply c1_store_ops_valid; auto.
+Qed.
+
+(* non-vacuity: both routes are taken.  Two tiles of one bundle: one Bundle.store_tiles call; first and last tile in
+   one bundle and a tile of another bundle between them: one store_tile per tile (each tile reaches its own bundle) *)
+Definition c_ex_tiles_one : list mtile := [(0, 5, [1;2;3]); (0, 6, [4])].
+
+Example c_ex_routes :
+  c_single_bundle c_ex_tiles_one = true /\ c_single_bundle m_ex_tiles = false /\
+  c_single_bundle [(0, 5, [1;2;3])] = false /\
+  map fst (c_store_ops m_ex_st c_ex_tiles_one) = [0; 0; 0; 0; 0; 0; 0; 0; 0] /\
+  map fst (c_store_ops m_ex_st m_ex_tiles) = map fst (m_store_ops m_ex_st m_ex_tiles) /\
+  In 1 (map fst (c_store_ops m_ex_st m_ex_tiles)).
+Proof. vm_compute. repeat split; try reflexivity. tauto. Qed.
+
+Example c_ex_safe : forall st' b slot,
+  In st' (m_crash_states m_ex_st (c_store_ops m_ex_st m_ex_tiles)) -> 0 <= slot < SLOTS ->
+  v2_read (st' b) slot = v2_read (m_ex_st b) slot \/
+  exists dd, has_data (m_batch_of b m_ex_tiles) slot dd = true /\ dd <> [] /\ v2_read (st' b) slot = RData dd.
+Proof.
+  intros st' b slot Hin Hs. destruct m_ex_hyps as [A [B C]].
+  apply (c_store_crash_safe m_ex_st m_ex_tiles st' b slot); auto.
+Qed.
+
+Example c1_ex_safe : forall st' b slot,
+  In st' (m1_crash_states m1_ex_st (c1_store_ops m1_ex_st m_ex_tiles)) -> 0 <= slot < SLOTS ->
+  v1_read (st' b) slot = v1_read (m1_ex_st b) slot \/
+  exists dd, has_data (m_batch_of b m_ex_tiles) slot dd = true /\ dd <> [] /\ v1_read (st' b) slot = RData dd.
+Proof.
+  intros st' b slot Hin Hs. destruct m1_ex_hyps as [A [B C]].
+  apply (c1_store_crash_safe m1_ex_st m_ex_tiles st' b slot); auto.
+Qed.
+
 (* ==== PART 7: bundle files embedded in the directory: initialisation + in-place phase in one theorem ==== *)
 
 
